@@ -3462,6 +3462,8 @@ bool IGXMLScanner::laxElementValidation(QName* element, ContentLeafNameTypeVecto
             return laxThisOne;
         }
 
+        // i is now the leaf that takes the element, which is a later one
+        // when the occurrence counter of the first match was used up
         ContentSpecNode::NodeTypes type = cv->getLeafTypeAt(i);
         if ((type & 0x0f) == ContentSpecNode::Any ||
             (type & 0x0f) == ContentSpecNode::Any_Other ||
